@@ -642,6 +642,88 @@ fn geometry(case: &GeoCase, obs: &mut Obs) -> PropResult {
 }
 
 // ---------------------------------------------------------------------------------------------
+// sub-check 2b: the 65535-byte limit, enumerated.  A method of `written - k` bytes in the input whose k
+// `ldc` each grow by one byte when re-written (same mechanism as above) comes out at exactly `written`
+// bytes: up to 65535 the writer has to produce it, from 65536 on it has to refuse (JVMS 4.7.3:
+// code_length < 65536) - the strict decoder rejects a file that claims more.
+
+fn limit_model(written: usize, k: usize, tables: bool) -> (CClass, Choices) {
+	let mut b = B { insns: Vec::new(), fix: Vec::new(), labels: Vec::new(), next_const: 1_000_000, firsts: Vec::new() };
+	b.pad(written - 3 * k - 1);
+	b.ldcs(k);
+	let (insns, firsts) = b.finish();
+	let n = insns.len();
+	let code = Code {
+		max_stack: 2,
+		max_locals: 1,
+		// ranges that end at the end of the code array: their end offset is the code length itself
+		exceptions: if tables { vec![ExcEntry { start: 0, end: n, handler: n - 1, catch: None }] } else { vec![] },
+		attrs: if tables {
+			vec![Attr::LineNumberTable(vec![(0, 1), (n - 1, 2)]), Attr::LocalVariableTable(vec![LocalVar { start: 0, end: n, name: "x".into(), ty: "I".into(), index: 0 }])]
+		} else {
+			vec![]
+		},
+		insns,
+	};
+	let mut filler_insns: Vec<Insn> = (0..300).map(|v| Insn::Ldc(Const::Int(2_000_000 + v))).collect();
+	filler_insns.push(Insn::Simple(177));
+	let filler = Code { max_stack: 1, max_locals: 0, insns: filler_insns, exceptions: vec![], attrs: vec![] };
+	let class = CClass {
+		minor: 0,
+		major: 49,
+		access: 0x21,
+		name: "geo/L".into(),
+		super_class: Some("java/lang/Object".into()),
+		interfaces: vec![],
+		fields: vec![],
+		methods: vec![
+			CMember { access: 9, name: "filler".into(), desc: "()V".into(), attrs: vec![Attr::Code(filler)] },
+			CMember { access: 9, name: "big".into(), desc: "()V".into(), attrs: vec![Attr::Code(code)] },
+		],
+		attrs: vec![],
+	};
+	(class, Choices { pool_first: firsts, ..Choices::default() })
+}
+
+fn code_limit(ctx: &mut Ctx) {
+	ctx.run_enum("code_size_limit", |rec| {
+		for written in 65524usize..=65548 {
+			for k in 0usize..=14 {
+				for tables in [false, true] {
+					if written - k > 65535 {
+						continue; // the input itself would not fit a class file
+					}
+					let mut obs = rec.obs();
+					let r = crate::engine::no_panic(|| -> PropResult {
+						let (model, ch) = limit_model(written, k, tables);
+						let enc = encode(&model, &ch).map_err(|e| format!("harness: encoder failed: {e:?}"))?;
+						match read_write_check(&enc.bytes, &mut obs).map_err(|e| format!("method that is {written} bytes when written ({} in the input): {e}", written - k))? {
+							Some(s) => {
+								if s.max_code != written {
+									return Err(format!("harness: expected the written method to be {written} bytes, it is {}", s.max_code));
+								}
+								obs.label(format!("written:{}", if written == 65535 { "exactly_65535" } else { "below_65535" }));
+								obs.label_if(k > 0, "grew_on_rewrite");
+							}
+							None => {
+								if written <= 65535 {
+									return Err(format!("harness: refusal accepted for a method of {written} bytes"));
+								}
+								obs.label(format!("refused:{}", if written == 65536 { "exactly_65536" } else { "above_65536" }));
+							}
+						}
+						obs.nontrivial_if(k > 0);
+						Ok(())
+					})
+					.and_then(|x| x);
+					rec.case(|| serde_json::json!({"written_size": written, "growing_ldc": k, "ranges_to_code_end": tables}), crate::engine::fnv64(format!("{written}/{k}/{tables}").as_bytes()), obs, r);
+				}
+			}
+		}
+	});
+}
+
+// ---------------------------------------------------------------------------------------------
 // sub-check 3: trees after a renaming (dukebox::remap with a generated quill remapper)
 
 struct Ns;
@@ -744,6 +826,7 @@ pub fn run(ctx: &mut Ctx) {
 	ctx.assume("no particular encoding, constant pool order or attribute order is required of the output");
 	ctx.run_sub("write_read_trees", ctx.tier.pick(24000, 1200000), || (class_stream(), choices()).prop_map(|(stream, ch)| SmallCase { stream, ch }), small);
 	ctx.run_sub("branch_geometry", ctx.tier.pick(800, 40000), geo_strategy, geometry);
+	code_limit(ctx);
 	ctx.run_sub(
 		"write_remapped_trees",
 		ctx.tier.pick(3000, 150000),
